@@ -30,6 +30,11 @@ def gen_cases(ctx, n):
                     if seen > 9:
                         ops[j] = 'O'
         cases.append(c)
+    # a grad-clip / noise scheduler stepping BETWEEN the physical batches of one logical batch (virtual steps)
+    for kind in ('exp', 'step', 'lambda'):
+        for fam in ('clip', 'noise'):
+            cases.append({'family': fam, 'kind': kind, 'init': 1.0, 'gamma': 0.5, 'step_size': 1, 'lam': 0,
+                          'ops': ['S', 'V', 'S', 'O', 'V', 'S', 'S', 'O', 'S', 'O']})
     return cases
 
 
@@ -119,12 +124,16 @@ def oracle_case(ctx, c, res):
             if abs(o['clipnorm'] - C) > 1e-6 * C:
                 ctx.fail('clip-norm', 'clipped norm %r, clipping norm in force %r' % (o['clipnorm'], C), c)
                 return
+            if o.get('virt_clip') is not None and abs(o['virt_clip'] - o['virt_C']) > 1e-6 * o['virt_C']:
+                ctx.fail('clip-norm-virtual-step', 'a sample of an earlier physical batch of the logical batch was clipped to %r, the clipping norm in force when it was processed was %r'
+                         % (o['virt_clip'], o['virt_C']), c)
+                return
 
 
 def coq_cases(cases, results):
     items = []
     for c, r in zip(cases, results):
-        ops = '[' + '; '.join({'S': 'S_', 'O': 'O_', 'R': 'R_'}[o] for o in c['ops']) + ']'
+        ops = '[' + '; '.join({'S': 'S_', 'O': 'O_', 'R': 'R_', 'V': 'O_'}[o] for o in c['ops']) + ']'
         exp = '[' + '; '.join(vlib.fhex(float.fromhex(h)) for h in r['traj']) + ']'
         items.append('mkcase %s %d%%Z %s %s %d%%Z %d%%Z %s %s' % (
             'true' if c['family'] == 'noise' else 'false', {'exp': 0, 'step': 1, 'lambda': 2}[c['kind']],
